@@ -60,12 +60,13 @@ type Config struct {
 	HoldPct     int // per mempool transaction and block, inside the fault window: held back
 	FaultBlocks int // the fault window: faults are injected while height < FaultBlocks
 	Rerun       bool
-	Slow        int   // member whose calls are starved inside the fault window (-1: nobody)
-	SlowPct     int   // probability that a decision passes over the slow member's parked calls
-	Upgrade     bool  // the chain is first deployed with older-version executables; Deploy must upgrade them
-	NEO         int64 // NEO left on the validators' account before the start (0: as genesis left it, 100M)
-	Liveness    int   // B: blocks allowed after the last fault
-	Bootstrap   int   // B1: blocks allowed for the Notary bootstrap with late members absent
+	Slow        int         // member whose calls are starved inside the fault window (-1: nobody)
+	SlowPct     int         // probability that a decision passes over the slow member's parked calls
+	Upgrade     bool        // the chain is first deployed with older-version executables; Deploy must upgrade them
+	NEO         int64       // NEO left on the validators' account before the start (0: as genesis left it, 100M)
+	Delay       map[int]int // member → block height at which its (first) run starts; the leader never waits
+	Liveness    int         // B: blocks allowed after the last fault
+	Bootstrap   int         // B1: blocks allowed for the Notary bootstrap with late members absent
 }
 
 // Violation is one broken oracle rule.
@@ -294,15 +295,24 @@ func RunSim(t *testing.T, cfg Config) (res *Result) {
 				return
 			}
 		}
-		s.logf("config n=%d random=%v blockQuanta=%d late=%v crashes=%v rpcErr=%d evt=%d hold=%d window=%d rerun=%v slow=%d/%d upgrade=%v neo=%d", cfg.N, cfg.SchedRandom, cfg.BlockQuanta, cfg.Late, cfg.Crashes, cfg.RPCErrPct, cfg.EvtPct, cfg.HoldPct, cfg.FaultBlocks, cfg.Rerun, cfg.Slow, cfg.SlowPct, cfg.Upgrade, cfg.NEO)
+		s.logf("config n=%d random=%v blockQuanta=%d late=%v crashes=%v rpcErr=%d evt=%d hold=%d window=%d rerun=%v slow=%d/%d upgrade=%v neo=%d delay=%v", cfg.N, cfg.SchedRandom, cfg.BlockQuanta, cfg.Late, cfg.Crashes, cfg.RPCErrPct, cfg.EvtPct, cfg.HoldPct, cfg.FaultBlocks, cfg.Rerun, cfg.Slow, cfg.SlowPct, cfg.Upgrade, cfg.NEO, cfg.Delay)
 		for _, l := range cfg.Late {
 			s.lateHeld[l] = true
 			s.inject("member.late")
 		}
 		for i := 0; i < cfg.N; i++ {
-			if !s.lateHeld[i] {
-				s.start(i)
+			if s.lateHeld[i] {
+				continue
 			}
+			if at, ok := cfg.Delay[i]; ok && at > 0 && i > 0 {
+				// started later, while the others are already at work (unlike the
+				// late members it does take part in the Notary bootstrap)
+				s.restartAt[i] = s.c.bc.BlockHeight() + uint32(at)
+				s.inject("member.delayed")
+				s.fired("member.delayed")
+				continue
+			}
+			s.start(i)
 		}
 		s.loop()
 		if len(res.Violations) == 0 && res.Harness == "" && res.Converged {
